@@ -57,6 +57,7 @@ def normalise_program(trees: Dict[str, ast.Module], pkgs: Set[str]) -> None:
         _iso(t)
     ho.fold_private_constants(trees, pkgs)
     for t in trees.values():
+        _strip_casts(t)
         _iso(t)  # isinstance(x, _TYPES) with a private tuple of classes is the `or` of the single tests now
     for m, t in trees.items():
         if not (".tests" in m or m.endswith("tests")):
@@ -119,6 +120,7 @@ def normalise_program(trees: Dict[str, ast.Module], pkgs: Set[str]) -> None:
             ho.rename_apart(t)
             ho.copy_propagation(t)
             ho.nonneg_clamp(t)
+            ho.fuse_comp_temps(t)
             ho.tail_return_to_break(t)
             ho.hoist_next_in_tests(t)
             ho.loop_target_unpack(t)
